@@ -297,6 +297,15 @@ def body_urlencoded_limits(I, X, n=2, with_cl=False, use_mfms=False):
     return ok, {"outcome": [list(x) for x in got]}
 
 
+def body_terminated_reads(I, X, N=6, kinds=("read", "read"), has_readinto=False):
+    """a server-terminated stream under max_content_length is a LimitedStream(is_max=True): never
+    more than the maximum is consumed from the server's input, whatever the read sizes
+    (shared with C09, where the same body is explored over more operation sequences)"""
+    from harness.c09 import body_limited
+
+    return body_limited(I, X, N=N, kinds=kinds, has_readinto=has_readinto)
+
+
 def make_stubs():
     from harness.c02 import make_stubs as m
 
@@ -353,6 +362,11 @@ def obligations(tier, seed):
                         "opts": {"budget_s": 600},
                         "witness": n == 3 and cut == 4 and nparts == 2,
                     })
+    for kinds in (("read", "read"), ("read", "readall"), ("readinto", "read")):
+        for ri in (False, True):
+            out.append({"name": f"terminated_reads[{'+'.join(kinds)},readinto={ri}]", "body": "body_terminated_reads",
+                        "params": {"N": 6, "kinds": list(kinds), "has_readinto": ri},
+                        "opts": {"ctx": {"fork_indices": False, "buf_cap": 8}, "budget_s": 900, "stubs_from": "harness.c09"}})
     for k in ("text", "absent"):
         out.append({"name": f"input_stream[{k}]", "body": "body_input_stream", "params": {"cl_kind": k},
                     "opts": {"budget_s": 900, "ctx": {"max_cp": 0x7FF}}, "witness": k == "text"})
